@@ -547,6 +547,14 @@ def handoverP (fin : Bool) (args : ArgsKind) (n : Nat) (dataFirst : Bool) : P :=
       .tryFinally (.seq (fromDataP d fin 1 .off args) (Prog.loop n fun _ => nextP i))
         (dropBothP d i dataFirst)
 
+/-- a caller that made the data itself calls `_animate_(render_data, render_args, padding, loops, cache,
+    output)` directly (as `draw` does), looks at the data afterwards and finalizes it — once -/
+def animOpP (loops : Int) (cache : CacheArg) (bound : Nat) : P :=
+  .get fun w =>
+    let d := w.nObjs
+    .act (.newData .caller true true) <|
+      .tryFinally (animateP d loops cache bound) (.seq (finalizeP d .caller) (.do (.callerDrop d)))
+
 /-! ## histories -/
 
 inductive Op
